@@ -3,6 +3,7 @@
 
 usage: seedeval.py confirm <ID> <i>       -> confirms in a scratch worktree, stores under /verif/seeded/<ID>-m<i>/
        seedeval.py eval <ID>-m<i> [PROP..] -> applies the patch to /repo, runs the quick checks, restores /repo
+       seedeval.py eval2 <ID>-m<i> [PROP..] -> the same against a scratch worktree (VERIF_REPO); /repo and /verif/evidence are not touched
 """
 import json, os, shutil, subprocess, sys, time
 ROOT = os.path.dirname(os.path.abspath(__file__))
@@ -33,7 +34,7 @@ def confirm(pid, i, rnd=""):
         rc, out = sh("go build . ./commit && go test -vet=off -count=1 . ./commit", cwd=wt)
         res["suite_passes_with_mutant"] = rc == 0
         d = demo_dir(src + "/demo_test.go")
-        race = "-race " if "-race" in open(src + "/meta.json").read() and "go test -race" in open(src + "/demo_test.go").read() + open(src + "/meta.json").read() and "m1" in src and "C18" in src else ""
+        race = "-race " if pid == "C18" and "go test -race" in open(src + "/meta.json").read() else ""
         res["demo_run_with_race_detector"] = bool(race)
         shutil.copy(src + "/demo_test.go", os.path.join(wt, d, "zz_seeded_demo_test.go"))
         fails = 0
@@ -91,7 +92,41 @@ def evaluate(name, props):
     meta["detection"] = results
     json.dump(meta, open(os.path.join(dst, "meta.json"), "w"), indent=1)
 
+def evaluate_scratch(name, props):
+    """Like evaluate, but /repo is never touched: the change is applied to a scratch worktree and the driver is pointed at it
+    (VERIF_REPO); evidence and replays of the run go to a scratch directory."""
+    dst = os.path.join(ROOT, "seeded", name)
+    meta = json.load(open(os.path.join(dst, "meta.json")))
+    props = props or [meta["property"]]
+    wt = "/tmp/ev-%s" % name
+    scratch = "/tmp/evd-%s" % name
+    sh("git -C /repo worktree remove --force %s" % wt)
+    rc, out = sh("git -C /repo worktree add -q --detach %s HEAD" % wt)
+    assert rc == 0, out
+    results = meta.get("detection", {})
+    try:
+        rc, out = sh("git apply %s/patch.diff" % dst, cwd=wt)
+        assert rc == 0, out
+        for p in props:
+            t0 = time.time()
+            env = "VERIF_REPO=%s VERIF_EVIDENCE_DIR=%s/evidence VERIF_REPLAYS_DIR=%s/replays" % (wt, scratch, scratch)
+            rc, out = sh("%s python3 run.py %s quick" % (env, p), cwd=ROOT, timeout=3600)
+            viol = [l for l in out.splitlines() if l.startswith("VIOLATION")]
+            results[p] = {"exit": rc, "detected": rc == 1 and bool(viol), "wall_s": round(time.time() - t0), "tier": "quick",
+                          "method": "change applied to a scratch worktree, driver pointed at it with VERIF_REPO",
+                          "first_violation_text": next((l for l in out.splitlines() if "violated" in l or "C18-VIOLATION" in l), "")[:400]}
+            print(name, p, "exit=%d detected=%s %ds" % (rc, results[p]["detected"], results[p]["wall_s"]), results[p]["first_violation_text"][:200], flush=True)
+            if rc not in (0, 1):
+                print(out[-1500:])
+    finally:
+        sh("git -C /repo worktree remove --force %s" % wt)
+        shutil.rmtree(scratch, ignore_errors=True)
+    meta["detection"] = results
+    json.dump(meta, open(os.path.join(dst, "meta.json"), "w"), indent=1)
+
 if sys.argv[1] == "confirm":
     print(sys.argv[2], sys.argv[3], json.dumps(confirm(sys.argv[2], sys.argv[3], sys.argv[4] if len(sys.argv) > 4 else "")))
 elif sys.argv[1] == "eval":
     evaluate(sys.argv[2], sys.argv[3:])
+elif sys.argv[1] == "eval2":
+    evaluate_scratch(sys.argv[2], sys.argv[3:])
